@@ -107,6 +107,7 @@ class Interp:
         funcs: Optional[Dict[str, Callable[..., Any]]] = None,
         isinstance_hook: Optional[Callable[[Any, str], Optional[bool]]] = None,
         method_defs: Optional[Dict[Tuple[str, str], ast.FunctionDef]] = None,
+        module_defs: Optional[Dict[str, ast.FunctionDef]] = None,
     ) -> None:
         self.env = env
         self.effect_methods = effect_methods
@@ -115,6 +116,7 @@ class Interp:
         self.funcs = funcs or {}  # module-level functions given a model (name -> handler(args))
         self.isinstance_hook = isinstance_hook
         self.method_defs = method_defs or {}  # (model kind, method) -> source to interpret
+        self.module_defs = module_defs or {}  # module-level functions interpreted from source
 
     # ------------------------------------------------------------ statements
     def run(self, fn: ast.FunctionDef) -> Any:
@@ -428,6 +430,8 @@ class Interp:
                 raise Unsupported(e, "(isinstance on a model value)")
             if nm in self.funcs and nm not in self.env:
                 return self.funcs[nm](self.elts(e.args))
+            if nm in self.module_defs and nm not in self.env:
+                return self.call_def(self.module_defs[nm], self.elts(e.args), e)
             # any other function: opaque result (constructors, unite_values, ...)
             for a in e.args:
                 if not isinstance(a, ast.Starred):
@@ -476,7 +480,7 @@ def call_def(self: "Interp", fn: ast.FunctionDef, args: List[Any], node: ast.AST
     names = [a.arg for a in fn.args.posonlyargs + fn.args.args]
     if len(args) != len(names):
         raise Unsupported(node, f"(arity of {fn.name})")
-    sub = Interp(dict(zip(names, args)), self.effect_methods, tuple(self.syms), self.funcs, self.isinstance_hook, self.method_defs)
+    sub = Interp(dict(zip(names, args)), self.effect_methods, tuple(self.syms), self.funcs, self.isinstance_hook, self.method_defs, self.module_defs)
     sub.steps = self.steps
     res = sub.run(fn)
     self.steps = sub.steps
